@@ -229,7 +229,7 @@ theorem ty_ok : ∀ (fuel : Nat) (st : St) (wt : WTy) (st' : St) (v : ValueType)
             rw [hq] at hn
             intro T' F he hF
             obtain ⟨F', rfl⟩ : ∃ F', F = F' + 1 := ⟨F - 1, by unfold vb at hF; omega⟩
-            simp only [Types.unfoldVT, hn T' he, Option.map_some, renT]
+            simp only [Types.unfoldVT, hn.toHL T' he, Option.map_some, renT]
           · cases ht
         · cases h
         · cases h
@@ -259,7 +259,7 @@ theorem ty_ok : ∀ (fuel : Nat) (st : St) (wt : WTy) (st' : St) (v : ValueType)
             rw [hq] at hn
             intro T' F he hF
             obtain ⟨F', rfl⟩ : ∃ F', F = F' + 1 := ⟨F - 1, by unfold vb at hF; omega⟩
-            simp only [Types.unfoldVT, hn T' he, Option.map_some, renT]
+            simp only [Types.unfoldVT, hn.toHL T' he, Option.map_some, renT]
           · cases ht
         · rename_i v' heq
           cases heq
